@@ -20,15 +20,15 @@ IsRegistered(W, v) == \E i \in 1..Len(W.ifund.vamms) : W.ifund.vamms[i] = v
 
 (* utils.rs::get_position_notional_unrealized_pnl: [ok, notional, pnl] *)
 PnL(W, v, p, opt) ==
-  IF p.size = 0 THEN [ok |-> TRUE, notional |-> 0, pnl |-> 0]
+  IF p.size = 0 THEN [ok |-> TRUE, notional |-> 0, pnl |-> 0, over |-> FALSE]
   ELSE LET vm == W.vamm[v]
            n  == CASE opt = "twap"   -> OutputTwap(vm, W.blk.t, p.dir, Abs(p.size))
                    [] opt = "spot"   -> OutputPrice(vm.cfg.D, p.dir, Abs(p.size), vm.st.x, vm.st.y)
                    [] opt = "oracle" -> LET op == OraclePrice(W, v)
                                         IN IF Bad(op) THEN FAIL
                                            ELSE (op * Abs(p.size)) \div W.eng.cfg.D
-       IN IF Bad(n) THEN [ok |-> FALSE, notional |-> 0, pnl |-> 0]
-          ELSE [ok |-> TRUE, notional |-> n,
+       IN IF Bad(n) THEN [ok |-> FALSE, notional |-> 0, pnl |-> 0, over |-> n = OVER]
+          ELSE [ok |-> TRUE, notional |-> n, over |-> FALSE,
                 pnl |-> IF p.dir = "add" THEN n - p.notional ELSE p.notional - n]
 
 FundingOwed(W, v, p) == SDiv((Cpf(W, v) - p.lupf) * p.size, W.eng.cfg.D)
@@ -44,7 +44,7 @@ RemainMargin(W, v, p, delta) ==
 ChosenPnL(W, v, p) ==
   LET s == PnL(W, v, p, "spot")
       t == PnL(W, v, p, "twap")
-  IN IF ~s.ok \/ ~t.ok THEN [ok |-> FALSE, notional |-> 0, pnl |-> 0]
+  IN IF ~s.ok \/ ~t.ok THEN [ok |-> FALSE, notional |-> 0, pnl |-> 0, over |-> s.over \/ t.over]
      ELSE IF Abs(s.pnl) > Abs(t.pnl) THEN t ELSE s
 
 RatioFrom(W, v, p, q) ==
@@ -58,30 +58,30 @@ RatioFrom(W, v, p, q) ==
 (* so the pair form is used.                                               *)
 MarginRatio(W, v, t) ==
   LET p == W.eng.pos[v][t]
-  IN IF p.size = 0 THEN [ok |-> TRUE, val |-> 0]
+  IN IF p.size = 0 THEN [ok |-> TRUE, val |-> 0, over |-> FALSE]
      ELSE LET q == ChosenPnL(W, v, p)
-          IN IF ~q.ok \/ q.notional = 0 THEN [ok |-> FALSE, val |-> 0]
-             ELSE [ok |-> TRUE, val |-> RatioFrom(W, v, p, q)]
+          IN IF ~q.ok \/ q.notional = 0 THEN [ok |-> FALSE, val |-> 0, over |-> q.over]
+             ELSE [ok |-> TRUE, val |-> RatioFrom(W, v, p, q), over |-> FALSE]
 
 (* utils.rs::get_margin_ratio_calc_option(Oracle) *)
 OracleRatio(W, v, t) ==
   LET p == W.eng.pos[v][t]
-  IN IF p.size = 0 THEN [ok |-> TRUE, val |-> 0]
+  IN IF p.size = 0 THEN [ok |-> TRUE, val |-> 0, over |-> FALSE]
      ELSE LET q == PnL(W, v, p, "oracle")
-          IN IF ~q.ok \/ q.notional = 0 THEN [ok |-> FALSE, val |-> 0]
-             ELSE [ok |-> TRUE, val |-> RatioFrom(W, v, p, q)]
+          IN IF ~q.ok \/ q.notional = 0 THEN [ok |-> FALSE, val |-> 0, over |-> q.over]
+             ELSE [ok |-> TRUE, val |-> RatioFrom(W, v, p, q), over |-> FALSE]
 
 (* the ratio `liquidate` compares with the maintenance ratio *)
 LiqRatio(W, v, t) ==
   LET mr == MarginRatio(W, v, t)
       os == IsOverSpread(W.vamm[v], OraclePrice(W, v))
-  IN IF ~mr.ok \/ ~os.ok THEN [ok |-> FALSE, val |-> 0, oracle |-> FALSE]
+  IN IF ~mr.ok \/ ~os.ok THEN [ok |-> FALSE, val |-> 0, oracle |-> FALSE, over |-> mr.over]
      ELSE IF os.val
           THEN LET orr == OracleRatio(W, v, t)
-               IN IF ~orr.ok THEN [ok |-> FALSE, val |-> 0, oracle |-> FALSE]
-                  ELSE IF orr.val - mr.val > 0 THEN [ok |-> TRUE, val |-> orr.val, oracle |-> TRUE]
-                  ELSE [ok |-> TRUE, val |-> mr.val, oracle |-> FALSE]
-          ELSE [ok |-> TRUE, val |-> mr.val, oracle |-> FALSE]
+               IN IF ~orr.ok THEN [ok |-> FALSE, val |-> 0, oracle |-> FALSE, over |-> orr.over]
+                  ELSE IF orr.val - mr.val > 0 THEN [ok |-> TRUE, val |-> orr.val, oracle |-> TRUE, over |-> FALSE]
+                  ELSE [ok |-> TRUE, val |-> mr.val, oracle |-> FALSE, over |-> FALSE]
+          ELSE [ok |-> TRUE, val |-> mr.val, oracle |-> FALSE, over |-> FALSE]
 
 (* query.rs::query_trader_position_with_funding_payment (margin only) *)
 MarginWithFunding(W, v, p) ==
@@ -94,10 +94,10 @@ FreeCollateral(W, v, t) ==
   LET p0 == W.eng.pos[v][t]
       p  == [p0 EXCEPT !.margin = MarginWithFunding(W, v, p0)]
       q  == ChosenPnL(W, v, p)
-  IN IF ~q.ok THEN [ok |-> FALSE, val |-> 0]
+  IN IF ~q.ok THEN [ok |-> FALSE, val |-> 0, over |-> q.over]
      ELSE LET account == q.pnl + p.margin
               minc    == IF q.pnl >= 0 THEN p.margin ELSE account
               req     == IF p.size >= 0 THEN (p.notional * W.eng.cfg.imr) \div W.eng.cfg.D
                          ELSE (q.notional * W.eng.cfg.imr) \div W.eng.cfg.D
-          IN [ok |-> TRUE, val |-> minc - req]
+          IN [ok |-> TRUE, val |-> minc - req, over |-> FALSE]
 =============================================================================
